@@ -48,7 +48,7 @@ Proof. exact inner_violation_not_repairable. Qed.
 
 (* refuted at full strength ("an operation that leaves an invariant false raises the invariant-violation error"): a method that
    raises an exception of its own is not validated on the way out, so a store that no __setattr__ saw escapes under that exception
-   (finding C05-F2; the same history runs against the real class in corpus/C05/unseen-store-then-raise.json) *)
+   (finding C05-F3; the same history runs against the real class in corpus/C05/unseen-store-then-raise.json) *)
 Theorem C05_exceptional_exit_unvalidated_refuted :
   step [] [{| i_form := IExplicit; i_pred := PLe "x" 9 |}] {| s_inst := [("x", VInt 5)]; s_enabled := true |} (OCallB [BRaw "x" (VInt 10)] true 2)
   = ({| s_inst := [("x", VInt 10)]; s_enabled := true |}, Exc "ValueError").
